@@ -16,7 +16,7 @@ def run(tier, seed):
     mc = [tlc_mc("MC_Reassembly.tla", "MC_Reassembly.cfg", workers=4)]
     sched = f"{w}/schedules.ndjson"
     g = tlc_gen("MC_Reassembly.tla", cfg_for(tier, "Gen_Reassembly.cfg"), "SCHEDULE", sched, name="c08_gen")
-    r1 = vh(["reassembly", "--layouts", lay, "--templates", tp, "--in", sched, "--reps", 2 if quick else 12, "--seed", seed], name="c08")
+    r1 = vhr(["reassembly", "--layouts", lay, "--templates", tp, "--in", sched], 2 if quick else 12, seed, tier, name="c08")
     v.add_report(r1, "delivery schedules")
     nviol, _ = v.finish()
     cov = std_cov(st + mc + [g], [r1], {
